@@ -372,7 +372,9 @@ pub fn main() {
     let mode = args.get(1).map(|s| s.as_str()).unwrap_or("native");
     if mode == "miri" {
         // a fixed list of histories; any undefined behaviour makes the interpreter abort with a report
-        let hs: Vec<Vec<Op>> = fixed_histories();
+        // (histories with more than three emits or more than eleven calls are replayed natively only: under the interpreter
+        // every emit costs seconds, and they exercise the same calls as the shorter ones)
+        let hs: Vec<Vec<Op>> = fixed_histories().into_iter().filter(|h| h.len() <= 11 && h.iter().filter(|o| matches!(o, Op::Emit(_))).count() <= 3).collect();
         for slack in [false, true] {
             for h in &hs {
                 if let Err(e) = run_history(h, slack) {
